@@ -26,6 +26,7 @@ run rockredis zz_fix_c07b_test.go TestZZZFixKeySameLogSameResult
 run transport/rafthttp zz_fix_c16_test.go TestZZMsgAppV2CorruptLength
 run node zz_fix_c11d_test.go TestZZScanNegativeCountEmptyPage
 run node zz_fix_c13_test.go TestZZRevScanWithoutCountKeepsDirection
+run node zz_fix_c13b_test.go TestZZScanCountAboveStoreLimitIsNotTheLastPage
 run engine zz_fix_c14_pebble_test.go TestFindC14PebbleCheckpointContainsLaterWrites
 run engine zz_fix_c20_seekforprev_test.go TestFindC20Reverse
 run engine zz_fix_c20_batchorder_test.go TestFindC20Batch
